@@ -507,8 +507,30 @@ func TestC18Flags(t *testing.T) {
 			c.Bits = uint16(kit.Uniform(t, "bits", 1<<uint(n)))
 			s := c18RenderFlags(names, c.Bits, rapid.Permutation(idx).Draw(t, "order"), rapid.Uint64().Draw(t, "case"))
 			c.Input, c.Canonical, c.Origin = s, true, "canonical"
-			switch rapid.IntRange(0, 3).Draw(t, "origin") {
+			switch rapid.IntRange(0, 4).Draw(t, "origin") {
 			case 0:
+			case 4:
+				// one letter replaced by a non-ASCII letter that Unicode case mapping / folding sends to it
+				// (KELVIN SIGN -> k, I WITH DOT ABOVE -> i, LONG S ~ s, DOTLESS I ~ I): not a flag name
+				rs := []rune(s)
+				var pos []int
+				for i, r := range rs {
+					if strings.ContainsRune("kKiIsS", r) {
+						pos = append(pos, i)
+					}
+				}
+				if len(pos) > 0 {
+					i := pos[kit.Uniform(t, "confusable-at", len(pos))]
+					switch rs[i] {
+					case 'k', 'K':
+						rs[i] = 0x212a
+					case 'i', 'I':
+						rs[i] = rapid.SampledFrom([]rune{0x130, 0x131}).Draw(t, "i")
+					default:
+						rs[i] = 0x17f
+					}
+					c.Input, c.Canonical, c.Origin = string(rs), false, "confusable"
+				}
 			case 1, 2:
 				c.Input, c.Canonical, c.Origin = c18Mutate(t, s, []rune("synackfinrstpshurgececwrnsdfevilmf, ,,\x00SYN\tſK")), false, "mutated"
 			default:
